@@ -455,17 +455,24 @@ where
         trailer.size = (self.refs.len() + 2) as _;
         let trailer_dict = trailer.to_dict(self)?;
         
+        // serialize everything first: an object that cannot be written must not leave
+        // the document half saved
+        let mut changes = Vec::with_capacity(self.changes.len());
+        for (&id, &(ref primitive, gen)) in self.changes.iter() {
+            let mut data = Vec::new();
+            primitive.serialize(&mut data)?;
+            changes.push((id, gen, data));
+        }
+        changes.sort_unstable_by_key(|&(id, _, _)| id);
+
         let xref_promise = self.promise::<Stream<XRefInfo>>();
 
-        let mut changes: Vec<_> = self.changes.iter().collect();
-        changes.sort_unstable_by_key(|&(id, _)| id);
-
-        for &(&id, &(ref primitive, gen)) in changes.iter() {
+        for (id, gen, data) in changes {
             // offsets are relative to the header
             let pos = self.backend.len() - self.start_offset;
             self.refs.set(id, XRef::Raw { pos: pos as _, gen_nr: gen });
             writeln!(self.backend, "{} {} obj", id, gen)?;
-            primitive.serialize(&mut self.backend)?;
+            self.backend.extend_from_slice(&data);
             writeln!(self.backend, "\nendobj")?;
         }
 
